@@ -134,8 +134,8 @@ CHECKS = {
                  "including those of open and close) x crash modes {process, machine-strict, machine-torn x k seeds}; each image is reopened "
                  "and compared with the admissible reference models (acknowledged mutations present; the one in-flight mutation applied "
                  "fully or not at all; indexes consistent; interrupted rebuild loses no record and is repaired by a second rebuild; recovered "
-                 "store accepts further mutations; sampled nested crashes during recovery). Non-trivial = at least one image with a mutation "
-                 "in flight; distinct = distinct operation histories."),
+                 "store accepts further mutations; sampled nested crashes during recovery). Non-trivial = the history holds at least one mutation "
+                 "(so some images have it in flight); distinct = distinct operation histories."),
         "jobs": [{"engine": "storesim-crash", "bin": "pebbledb", "test": "TestVerifC07", "cfg": {}}],
         "assumptions": ["A1: the database directory exists and is durable before the workload starts",
                         "machine-strict = Pebble vfs.NewStrictMem semantics; machine-torn additionally keeps a prefix of each file's unsynced writes and of each directory's unsynced entry operations"],
